@@ -10,14 +10,10 @@ THEOREMS = []
 def run(c):
     if MODULES:
         c.lean(MODULES, THEOREMS)
-    model = c.model_exe()
-    hcodec = c.harness("hcodec")
-    tl2gen = cc.build_tl2gen(c)
+    model, scs = cj.setup(c)
     rng = c.rng
     per = 40 if c.thorough else 10
-    for sc in cj.corpus(c):
-        if not cj.prepare(c, hcodec, tl2gen, sc):
-            continue
+    for sc in scs:
         items = cc.link_items(sc)
         g = cj.GenJ(sc, rng.fork(), big=c.thorough)
         lines = []
